@@ -27,7 +27,17 @@ type MConfig struct {
 	PropFault string // attribution of what the fault enumeration finds (no listed property quantifies over faults in mount.FS)
 }
 
-type MAdapter struct{ Cfg MConfig }
+type MAdapter struct {
+	Cfg   MConfig
+	fresh *tla.Value // the tree of a newly mounted file system (header constant "fresh")
+}
+
+// SetHeader receives the header line of the model (engine.HeaderAware).
+func (a *MAdapter) SetHeader(h *tla.Value) {
+	if f := h.Get("fresh"); f != nil {
+		a.fresh = f
+	}
+}
 
 func (a *MAdapter) Name() string { return a.Cfg.AdapterName }
 
@@ -36,7 +46,8 @@ type MInst struct {
 	mfs    *mount.FS
 	parts  map[int64]hackpadfs.FS // constituent file systems by model id
 	probe  *Inst                  // reuses the FSCore call/result machinery on the mount FS
-	root0  *tla.Value             // initial tree of the root FS (template for freshly mounted file systems)
+	root0  *tla.Value             // initial tree of the root FS (template for freshly mounted file systems when the model names none)
+	fresh  *tla.Value             // the tree a newly mounted file system carries, as the model's header states it
 	dirty  bool
 	state  *tla.Value // model state before the call (engine.StateAware)
 	faults []string
@@ -78,6 +89,9 @@ func (a *MAdapter) build(init *tla.Value, ctl *faultCtl) (*MInst, error) {
 		}
 	})
 	in.root0 = rootTree
+	if a.fresh != nil {
+		in.fresh = a.fresh
+	}
 	root, err := mkPart(0, rootTree)
 	if err != nil {
 		return nil, err
@@ -198,10 +212,12 @@ func (in *MInst) addMount(call *tla.Value) (o Obs) {
 	p := in.probe.path(call.F("p"))
 	// a freshly mounted FS carries the model's FreshFixture: the root skeleton with every file byte = 77
 	part, err := mem.NewFS()
-	if err == nil {
+	if err == nil && in.fresh != nil {
+		err = Construct(part, in.fresh, nil) // the model says what a newly mounted file system holds
+	} else if err == nil {
 		err = Construct(part, in.root0, nil)
 	}
-	if err == nil {
+	if err == nil && in.fresh == nil {
 		in.root0.Pairs(func(k, v *tla.Value) {
 			if v.F("k").S == "file" && err == nil {
 				err = hackpadfs.WriteFullFile(part, in.probe.path(k), bytes.Repeat([]byte{77}, len(v.F("d").E)), hackpadfs.FileMode(v.F("perm").I))
